@@ -12,6 +12,7 @@ import UnifexModel.Driver.Entries.Coro
 import UnifexModel.Driver.Entries.Ctx
 import UnifexModel.Driver.Entries.EStream
 import UnifexModel.Driver.Entries.Event
+import UnifexModel.Driver.Entries.Fused
 import UnifexModel.Driver.Entries.Io
 import UnifexModel.Driver.Entries.Mutex
 import UnifexModel.Driver.Entries.Sched
@@ -41,6 +42,7 @@ def table : List ModelEntries :=
   , Entries.autoreset
   , Entries.eventv2
   , Entries.asyncpass
+  , Entries.fused
   , Entries.remotequeue
   , Entries.epollop
   , Entries.twoctx
